@@ -280,6 +280,7 @@ func c12Bound(w *c12World, rows []model.Row, opt int, cov *rt.Coverage) (string,
 		{`^ a = $1 ; b`, func(a []any) string { return `^ a = ` + q(a[0]) + ` ; b` }, 1},
 		{`^ ( a = $1 | b = $2 ) ; a`, func(a []any) string { return `^ ( a = ` + q(a[0]) + ` | b = ` + q(a[1]) + ` ) ; a` }, 2},
 		{`a = $2 & ^ b = $1`, func(a []any) string { return `a = ` + q(a[1]) + ` & ^ b = ` + q(a[0]) }, 2},
+		{`a = "x" | ^ b = "y" ; a , b`, func(a []any) string { return `a = "x" | ^ b = "y" ; a , b` }, 0},
 		{`a = $1 | b = $1 | ^ a = $2 ; a`, func(a []any) string { return `a = ` + q(a[0]) + ` | b = ` + q(a[0]) + ` | ^ a = ` + q(a[1]) + ` ; a` }, 2},
 	}
 	vals := []any{"x", "1", "y", "2", "zz"}
